@@ -310,21 +310,34 @@ class World:
         return sorted(res)
 
     def canon_bn(self, bn):
+        """Percolated network -> [[name, truth table over its own variables (sorted by name)]].
+        Compared semantically, never by expression text or object identity."""
+        from biodivine_aeon import SymbolicContext
+
+        names = sorted(bn.variable_names())
+        if not names:
+            return []
+        ctx = SymbolicContext(bn)
+        bvars = [ctx.find_network_bdd_variable(nm) for nm in names]
         out = []
-        for v in bn.variables():
-            fn = bn.get_update_function(v)
-            out.append([bn.get_variable_name(v), None if fn is None else str(fn.as_expression() if hasattr(fn, "as_expression") else fn)])
-        return sorted(out)
+        for nm in names:
+            fn = bn.get_update_function(nm)
+            if fn is None:
+                out.append([nm, None])
+                continue
+            f = ctx.mk_update_function(fn)
+            tt = []
+            for idx in range(1 << len(names)):
+                val = {bv: bool((idx >> j) & 1) for j, bv in enumerate(bvars)}
+                tt.append(1 if f.r_restrict(val).is_true() else 0)
+            out.append([nm, tt])
+        return out
 
     @staticmethod
     def canon_pn(pn):
-        nodes = sorted((str(n), str(d.get("kind"))) for n, d in pn.nodes(data=True) if d.get("kind") == "place")
-        trans = sorted(
-            (tuple(sorted(map(str, pn.predecessors(t)))), tuple(sorted(map(str, pn.successors(t)))))
-            for t, d in pn.nodes(data=True)
-            if d.get("kind") == "transition"
-        )
-        return [len(nodes), [[list(a), list(b)] for a, b in trans]]
+        """Only the places (= free variables) are compared: the transition structure is a
+        DNF that legitimately depends on the BDD variable order."""
+        return sorted(str(n) for n, d in pn.nodes(data=True) if d.get("kind") == "place")
 
     @staticmethod
     def canon_interventions(ivs):
